@@ -129,16 +129,25 @@ def _apply(op: int, root: Node) -> None:
         Node.is_equal(root, root)
     elif op == 13:
         metapype_io.to_xml(root, None, 0, True)
-        str(root)
-        repr(ds)
 
 
 NOPS = 14
 
 
+ALPHA = "a1 <>&\"'\u00e9\t\n"
+
+
+def in_alpha(s: str) -> bool:
+    for ch in s:
+        if ch not in ALPHA:
+            return False
+    return True
+
+
 def h_readonly(val: Optional[str], where: int, has_dir: bool) -> str:
     """
     pre: val is None or len(val) <= MAXLEN
+    pre: val is None or in_alpha(val)
     pre: 0 <= where < 4
     post: _ == ""
     """
